@@ -7,6 +7,5 @@ CONSTANTS
   None <- NoneV
   Family = "two"
 INVARIANT PropertyHolds
-INVARIANT PropertyOrKnown
 INVARIANT OrderFree
 CHECK_DEADLOCK FALSE
